@@ -51,8 +51,31 @@ func fnDiscard(ctx *cmdContext, args map[string]any) (output respValue, err erro
 
 func isAbortedExecUnlocked(cs *clientState) bool {
 	for watch, id := range cs.watches {
+		if watch.ds != cs.ds {
+			// checked by isAbortedExecOtherDbs, with that data store locked
+			continue
+		}
 		// caller holds exclusive lock, so go directly to the data store for this check
 		if watch.ds.hasChangedUnlocked(watch.key, id) {
+			return true
+		}
+	}
+	return false
+}
+
+// Checks the watched keys that live in another data store than the one the
+// client has selected. Each of those data stores is locked for the check, one
+// at a time; the caller must not hold a data store lock yet.
+func isAbortedExecOtherDbs(cs *clientState) bool {
+	for watch, id := range cs.watches {
+		if watch.ds == cs.ds {
+			continue
+		}
+		dsc := watch.ds.newDataStoreCommand()
+		dsc.lock()
+		changed := watch.ds.hasChangedUnlocked(watch.key, id)
+		dsc.unlock()
+		if changed {
 			return true
 		}
 	}
@@ -83,6 +106,9 @@ func fnExec(ctx *cmdContext, args map[string]any) (output respValue, err error) 
 		}
 	}
 
+	// keys watched in other databases are checked before this one gets locked
+	abortedElsewhere := isAbortedExecOtherDbs(ctx.cs)
+
 	// take complete ownership of the data store
 	ctx.dsc.acquireExclusive()
 	defer ctx.dsc.releaseExclusive()
@@ -92,7 +118,7 @@ func fnExec(ctx *cmdContext, args map[string]any) (output respValue, err error) 
 	defer ctx.cs.setMultiInProgress(false)
 
 	// check the watches; if anything has changed, return null
-	if isAbortedExecUnlocked(ctx.cs) {
+	if abortedElsewhere || isAbortedExecUnlocked(ctx.cs) {
 		// the transaction is over: back to normal mode, nothing queued, nothing watched
 		ctx.cs.watches = map[watchKey]uint64{}
 		ctx.cs.cmdQueue = nil
